@@ -1082,6 +1082,14 @@ M('C13', 'OneSiteH.adjoint reads LHeff and RHeff in both directions (original de
 M('C13', 'subspace expansion (right move) projects a leg the tensor does not have', MC,
   "                LHeff.iproject(proj, 'wR')\n", "                LHeff.iproject(proj, 'wL')\n", 'LABEL-known')
 
+M('C18', 'checkpoint payload works on self.results itself', SIM,
+  "        results = self.results.copy()\n        if len(self.errors_during_run) > 0:",
+  "        results = self.results\n        if len(self.errors_during_run) > 0:", 'RESUME-save-payload')
+M('C18', 'checkpoint payload: local renamed (equivalent)', SIM,
+  "        results = self.results.copy()\n        if len(self.errors_during_run) > 0:\n            results['errors_during_run'] = self.errors_during_run\n        results['simulation_parameters'] = self.options.as_dict()",
+  "        results = self.results.copy()\n        if len(self.errors_during_run) > 0:\n            results['errors_during_run'] = self.errors_during_run\n        results['simulation_parameters'] = dict(self.options.as_dict())",
+  None, expect='silent')
+
 # ---------------------------------------------------------------- C16 / C19
 M('C16', 'GMRES restart: relative residual norm used for normalisation (round-3 seed b)', KRY,
   """        self.total_error.append([npc.norm(self.rs[-1]) / self.b_norm])
